@@ -34,6 +34,7 @@ NoRe == [out |-> <<>>, cbs |-> <<>>, evs |-> <<>>, done |-> <<>>, hcalls |-> <<>
 \*                            completed, the table entry waits for the router's answer); subscribe -> handler id;
 \*                            unsubscribe -> sub id; unregister -> reg id; others 0)
 S0 == [tr |-> FALSE, joined |-> FALSE, gb |-> FALSE, hello |-> FALSE, nreq |-> 0,
+       ackf |-> FALSE,       \* the broker announced acknowledged event delivery in its WELCOME
        pend |-> [k \in Kinds |-> {}],
        subs |-> {},          \* set of [sub, hs]  hs = sequence of handler ids (possibly empty while UNSUBSCRIBE is in flight)
        regs |-> {},          \* set of registration ids
@@ -84,7 +85,7 @@ EndSession(s, reply) ==
 RxHandshake(s, m, u) ==
   CASE m.t = "welcome" ->
          IF u.welcome = "ok"
-         THEN Mk([s EXCEPT !.joined = TRUE], [NoRe EXCEPT !.cbs = <<"onWelcome", "onJoin">>, !.evs = <<"join", "ready">>])
+         THEN Mk([s EXCEPT !.joined = TRUE, !.ackf = m.ackf], [NoRe EXCEPT !.cbs = <<"onWelcome", "onJoin">>, !.evs = <<"join", "ready">>])
          ELSE Mk(s, [NoRe EXCEPT !.cbs = <<"onWelcome">>, !.out = <<[t |-> "abort"]>>])
     [] m.t = "abort" -> EndSession(s, <<>>)
     [] m.t = "challenge" ->
@@ -182,9 +183,16 @@ Interrupt(s, req) ==
   ELSE Mk(s, NoRe)                                                        \* not (or no longer) running: ignored
 
 \* ---------------------------------------------------------------- events (C11)
-Event(s, sub) ==
+\* Acknowledged delivery (growth beyond the listed clauses): an EVENT flagged x_acknowledged_delivery by a broker that announced the
+\* feature is answered with EVENT_RECEIVED once the handler has returned normally.  The code answers once per handler of the
+\* subscription (not once per event - upstream issue 764); the model says what the code does.  bad = handler ids that raise.
+InSeq(x, q) == \E i \in 1..Len(q) : q[i] = x
+Acks(s, hs, ack, bad) ==
+  IF ack /\ s.ackf /\ s.tr THEN [i \in 1..Len(SelectSeq(hs, LAMBDA h : ~InSeq(h, bad))) |-> [t |-> "event_received"]] ELSE <<>>
+Event(s, sub, ack, bad) ==
   IF ~HasSub(s, sub) THEN Violation(s)
-  ELSE Mk(s, [NoRe EXCEPT !.hcalls = SubOf(s, sub).hs])            \* every current handler once, in subscription order
+  ELSE Mk(s, [NoRe EXCEPT !.hcalls = SubOf(s, sub).hs,             \* every current handler once, in subscription order
+                          !.out = Acks(s, SubOf(s, sub).hs, ack, bad)])
 
 \* an EVENT during whose dispatch the handler at position p unsubscribes the handler at position q (q = p: itself).  Every
 \* handler subscribed when the event arrived is invoked, in order, except one that was unsubscribed before its turn (q > p);
@@ -192,7 +200,7 @@ Event(s, sub) ==
 EventRe(s, sub, p, q) ==
   IF ~HasSub(s, sub) THEN Violation(s)
   ELSE LET hs == SubOf(s, sub).hs IN
-       IF p = 0 \/ p > Len(hs) \/ q > Len(hs) \/ q = 0 THEN Event(s, sub)
+       IF p = 0 \/ p > Len(hs) \/ q > Len(hs) \/ q = 0 THEN Event(s, sub, FALSE, <<>>)
        ELSE LET un == Unsubscribe(s, sub, hs[q], q)
                 keep == SelectSeq([i \in 1..Len(hs) |-> i], LAMBDA i : ~(i = q /\ q > p))
             IN Mk(un.s, [un.re EXCEPT !.hcalls = [k \in 1..Len(keep) |-> hs[keep[k]]]])
@@ -231,7 +239,7 @@ RxSession(s, m, beh) ==
          ELSE LET reg == Get(s.pend["unregister"], m.req).x
                   r == Complete(s, "unregister", m.req, TRUE)
               IN Mk([r.s EXCEPT !.regs = @ \ {reg}], r.re)
-    [] m.t = "event" -> EventRe(s, m.sub, m.p, m.q)
+    [] m.t = "event" -> IF m.ack THEN Event(s, m.sub, TRUE, m.bad) ELSE EventRe(s, m.sub, m.p, m.q)
     [] m.t = "invocation" -> Invocation(s, m, beh)
     [] m.t = "interrupt" -> Interrupt(s, m.req)
     [] OTHER -> Violation(s)                                   \* handshake messages after the session is established
@@ -269,13 +277,14 @@ U == [welcome : {"ok", "deny"}, challenge : {"ok", "raise"}]
 U0 == [welcome |-> "ok", challenge |-> "ok"]
 Count(seq, c) == Len(SelectSeq(seq, LAMBDA x : x = c))
 RouterMsgs ==
-  {[t |-> "welcome"], [t |-> "abort"], [t |-> "challenge"], [t |-> "goodbye"]}
+  {[t |-> "welcome", ackf |-> a] : a \in BOOLEAN} \cup {[t |-> "abort"], [t |-> "challenge"], [t |-> "goodbye"]}
   \cup {[t |-> "result", req |-> r, progress |-> p] : r \in 1..MaxReq, p \in BOOLEAN}
   \cup {[t |-> "error", kind |-> k, req |-> r] : k \in Kinds, r \in 1..MaxReq}
   \cup {[t |-> x, req |-> r] : x \in {"published", "unsubscribed", "unregistered"}, r \in 1..MaxReq}
   \cup {[t |-> "subscribed", req |-> r, sub |-> b, unsub |-> u] : r \in 1..MaxReq, b \in SubIds, u \in BOOLEAN}
   \cup {[t |-> "registered", req |-> r, reg |-> g] : r \in 1..MaxReq, g \in RegIds}
-  \cup {[t |-> "event", sub |-> b, p |-> pq[1], q |-> pq[2]] : b \in SubIds, pq \in {<<0, 0>>, <<1, 1>>, <<1, 2>>, <<2, 1>>, <<2, 2>>}}
+  \cup {[t |-> "event", sub |-> b, p |-> pq[1], q |-> pq[2], ack |-> FALSE, bad |-> <<>>] : b \in SubIds, pq \in {<<0, 0>>, <<1, 1>>, <<1, 2>>, <<2, 1>>, <<2, 2>>}}
+  \cup {[t |-> "event", sub |-> b, p |-> 0, q |-> 0, ack |-> TRUE, bad |-> bd] : b \in SubIds, bd \in {<<>>, <<1>>}}
   \cup {[t |-> "invocation", req |-> r, reg |-> g, rp |-> p] : r \in 1..MaxReq, g \in RegIds, p \in BOOLEAN}
   \cup {[t |-> "interrupt", req |-> r] : r \in 1..MaxReq}
 
@@ -338,6 +347,8 @@ ExactlyOneTerminalWhileUp ==
 ProgressOnlyWhileRunning ==
   \A i \in 1..Len(re.out) : (re.out[i].t = "yield" /\ re.out[i].progress) => \E x \in s.invs : x.req = re.out[i].req /\ x.rp
 \* C11
+\* EVENT_RECEIVED goes out only for the handlers just invoked, and only when the broker announced the feature
+AcksOnlyWhenAnnounced == LET k == Len(SelectSeq(re.out, LAMBDA o : o.t = "event_received")) IN k <= Len(re.hcalls) /\ (k > 0 => s.ackf)
 \* only handlers that were subscribed when the event arrived are invoked (pre-state: a handler may unsubscribe itself while running)
 HandlersWereCurrent == [][\A i \in 1..Len(re'.hcalls) : \E x \in s.subs : \E j \in 1..Len(x.hs) : x.hs[j] = re'.hcalls[i]]_vars
 =============================================================================
